@@ -1020,7 +1020,12 @@ pub fn pow<E: Copy, T: FastPow<E>>(
     base: TensorView<T>,
     exp: TensorView<E>,
 ) -> Result<Tensor<T>, OpError> {
-    if let Some(&exp) = exp.item() {
+    // The fast path for a single exponent produces an output with the same
+    // shape as `base`. This is not the broadcast shape if `exp` has a higher
+    // rank.
+    if exp.ndim() <= base.ndim()
+        && let Some(&exp) = exp.item()
+    {
         Ok(base.map_in(pool, |x| x.fast_pow(exp)))
     } else {
         binary_op(pool, base, exp, &|b: T, e: E| b.fast_pow(e))
